@@ -210,6 +210,59 @@ def assoc_lag_history(rng, workdir: Path, rec, k):
             p.unlink(missing_ok=True)
 
 
+def two_objects_one_path(rng, workdir: Path, rec, k):
+    """Store object A is created for a path and left empty (its file is only created by the
+    first addition); meanwhile object B creates, fills and closes a store at the same path;
+    then A gets its first trajectory.  Whatever A answers, what B added and closed stays."""
+    import numpy as np
+
+    from AEIC.trajectories import TrajectoryStore
+    from vlib import trajgen
+    from vlib.storeops import Mismatch
+
+    nprng = np.random.default_rng(rng.getrandbits(32))
+    p = workdir / f'shared{rng.getrandbits(40):x}.nc'
+    a = TrajectoryStore.create(base_file=p)
+    try:
+        try:
+            b = TrajectoryStore.create(base_file=p)
+        except Exception:  # noqa: BLE001  (refusing a second object for the path is fine)
+            rec.cls('two-objects-one-path:second-object-refused')
+            return
+        snaps = []
+        for j in range(rng.randint(1, 4)):
+            t = trajgen.make_base_traj(nprng, rng.randint(2, 5), k * 1000 + 800 + j)
+            b.add(t)
+            snaps.append(trajgen.snapshot(t))
+        b.close()
+        late = trajgen.make_base_traj(nprng, 3, k * 1000 + 850)
+        try:
+            a.add(late)
+            outcome = 'accepted'
+        except Exception as e:  # noqa: BLE001
+            outcome = f'refused:{type(e).__name__}'
+    finally:
+        try:
+            a.close()
+        except Exception:  # noqa: BLE001
+            pass
+    rec.ev()
+    try:
+        with TrajectoryStore.open(base_file=p) as st:
+            got = [trajgen.fingerprint(st[i]) for i in range(len(st))]
+    except Exception as e:  # noqa: BLE001
+        raise Mismatch('a store that was filled and closed cannot be read after another object '
+                       'created for the same path was used',
+                       {'error': f'{type(e).__name__}: {str(e)[:200]}', 'late_add': outcome})
+    exp = [trajgen.fingerprint(s_) for s_ in snaps]
+    if got[:len(exp)] != exp:
+        raise Mismatch('trajectories added and closed through one store object are lost when '
+                       'another object created earlier for the same path gets its first addition',
+                       {'late_add': outcome, 'in_file_now': got, 'added_and_closed': exp})
+    rec.cls(f'two-objects-one-path:late-first-addition-{outcome.split(":")[0]}')
+    p.unlink(missing_ok=True)
+
+
 def big_store(spec, rec, workdir, identified=False):
     """One long store: N additions (N beyond 255, at thorough tier beyond 32 767), reads at
     the power-of-two boundaries, in the creating session, an append session and a read session."""
@@ -285,6 +338,11 @@ def run_shard(spec, rec):
             if k % 4 == 0:
                 try:
                     assoc_lag_history(random.Random(f"{spec['seed']}-{k}-lag"), workdir, rec, k)
+                except Mismatch as m:
+                    classify(rec, m, {'spec': {'seed': spec['seed'], 'n': spec['n']}, 'k': k})
+            if k % 4 == 1:
+                try:
+                    two_objects_one_path(random.Random(f"{spec['seed']}-{k}-two"), workdir, rec, k)
                 except Mismatch as m:
                     classify(rec, m, {'spec': {'seed': spec['seed'], 'n': spec['n']}, 'k': k})
     finally:
